@@ -468,7 +468,7 @@ def replay_violation(unit, workdir, crate_dir, h, v, pid, tmo, mem):
     base = os.path.join(rdir, h["name"].replace("::", "__") + "--" + v["label"].replace("/", "_"))
     logpath = os.path.join(WORK_ROOT, "%s-playback.log" % unit["name"])
     # the driver itself parses the (large) CBMC trace for playback: give it room
-    rc, _, _ = run_kani(unit, workdir, crate_dir, [h["name"]], max(tmo, 300), 1, max(mem, 44), unit.get("kani_flags", []), logpath, playback=True)
+    rc, _, _ = run_kani(unit, workdir, crate_dir, [h["name"]], max(3 * tmo, 600), 1, max(mem, 44), unit.get("kani_flags", []), logpath, playback=True)
     txt = open(logpath, errors="replace").read()
     vals = extract_playback(txt, None if v.get("kind") == "panic" else v["label"])
     rp = dict(path=base + ".json", harness=h["name"], label=v["label"], desc=v["desc"], loc=v["loc"])
